@@ -66,6 +66,7 @@ METAS = [
     # round 8: a meta element that names another media type and no charset (the media-type default is the transport's)
     ('xhtml-nocharset', '<meta http-equiv="Content-Type" content="application/xhtml+xml">', None),
     ('textxml-nocharset', '<meta http-equiv="content-type" content="text/xml">', None),
+    ('valueless-attr', '<meta foo><meta http-equiv="Content-Type" content="text/html; charset=koi8-r" bar>', 'koi8-r'),
     ('css-nocharset', '<meta http-equiv="Content-Type" content="text/css; x=y">', None),
 ]  # fmt: skip
 BODIES = ['<html><head>%s</head><body>x</body></html>', '%s']
